@@ -537,3 +537,7 @@ fn concat_activities(
 
     activities
 }
+
+#[cfg(kani)]
+#[path = "/verif/kani/vrp-core/evaluators_proofs.rs"]
+mod verif_kani_proofs;
